@@ -99,7 +99,7 @@ func parseField(in string, maxIdx int64, enableNumKeys bool) field {
 		// If the idx > opts.maxIdx treat it as a regular named field.
 		// This preserves the current behavour for small index fields values (<= opts.maxIdx)
 		// and prevents large memory allocations or OOM if the string is large numeric value
-		if err == nil && idx <= int64(maxIdx) {
+		if err == nil && idx >= 0 && idx <= int64(maxIdx) {
 			return idxField{int(idx)}
 		}
 	}
